@@ -4,19 +4,23 @@ from fractions import Fraction as F
 
 from props import _units as X
 from props import _ufault as UF
+from props import _uwrite as UW
 
 ID = "C18"
 SECTIONS = ["units"]
 LEAN_MODULES = ["QExPy.Props.C18"]
-LEMMA_MODULES = ["QExPy.Lemmas.Units", "QExPy.Lemmas.UnitsDefs"]
+LEMMA_MODULES = ["QExPy.Lemmas.Units", "QExPy.Lemmas.UnitsDefs", "QExPy.Lemmas.ParseSpec"]
 THEOREMS = ["QExPy.C18_pack_sound", "QExPy.C18_unpack_sound", "QExPy.C18_mul_div_dim",
             "QExPy.C18_named_only_if_power", "QExPy.C18_clear", "QExPy.C18_dim_preserved",
             "QExPy.C18_define_reject_unchanged", "QExPy.C18_define_reject_iff",
             "QExPy.C18_define_accept", "QExPy.C18_rejected_requests_invisible",
-            "QExPy.C18_clear_last"]
+            "QExPy.C18_clear_last", "QExPy.C18_definitions_wellformed", "QExPy.C18_written"]
 RULE = ("define/clear/evaluate histories: definition chains (N = kg*m/s^2, J = N*m, W = J/s, "
         "Pa = N/m^2 and random compounds, each mentioning base symbols and earlier names, "
-        "occasional redefinition in base symbols), trees as in C08 whose leaves are written in "
+        "occasional redefinition in base symbols; the expression of a definition and the unit of an "
+        "operand are also WRITTEN in every form of the unit grammar: a symbol more than once as in "
+        "N/m/m, kg*m*m/s^2, J*J/N, chains of / and *, brackets, implicit multiplication), trees as "
+        "in C08 whose leaves are written in "
         "named, expanded or mixed form with named units to powers +-1..3, +/- operands "
         "dimension-equal after expansion but reached by different routes, constant powers and "
         "sqrt of named units; every tree is evaluated with the definitions active and again after "
@@ -37,7 +41,10 @@ LEVEL_TEXT = ("Lean 4 theorems over an exact list/Rat model of unit definitions,
               "C18_named_only_if_power (a named unit appears only as an exact rational power of its "
               "definition), C18_clear / C18_clear_last (after clear_unit_definitions the result is the "
               "base-unit one), C18_define_reject_* / C18_rejected_requests_invisible (a rejected "
-              "define_unit request leaves the table unchanged for all request histories).  Tied to the "
+              "define_unit request leaves the table unchanged for all request histories), "
+              "C18_definitions_wellformed (whatever is written in a definition - a symbol several times, "
+              "chains of /, brackets - every history leaves key-unique maps: the hypothesis of "
+              "C18_dim_preserved holds in every session), C18_written (operands given as unit strings).  Tied to the "
               "code by a differential run over define/clear/evaluate histories and an independent "
               "expansion oracle; a proof is the right level because the claim is about every table and tree")
 LEVEL_NOTE = ("proved of the Lean model for all ordered (acyclic) definition tables; cyclic definitions are "
@@ -52,19 +59,26 @@ NAMES = ["V", "T", "C", "H", "Wb", "lx"]
 BASE = ["kg", "m", "s", "A", "K", "mol"]
 
 
-def gen_defs(rng):
-    """-> list of ["define", name, string, units_json]"""
+def gen_defs(rng, written=0.5):
+    """-> list of ["define", name, string, units_json]; with probability `written` the expression
+    of a definition is spelled in another written form of the same map (N = kg*m/s/s,
+    Pa = N/m/m, J = kg*m*m/s^2 or N*m, a symbol more than once, brackets, chains of /)"""
     out = []
     r = rng.random()
     if r < 0.55:
         k = rng.randint(1, 4)
         for name, ustr, u in CLASSIC[:k]:
-            out.append(["define", name, ustr, X.units_json([(a, F(b)) for a, b in u])])
+            u = [(a, F(b)) for a, b in u]
+            if rng.random() < written:
+                ustr = UW.write_unit(rng, u)[0]
+            out.append(["define", name, ustr, UW.ordered_json(u, ustr)])
     names = [d[1] for d in out]
     for name in rng.sample(NAMES, rng.choice([0, 1, 1, 2, 3]) if out else rng.randint(1, 3)):
         pool = BASE + names
         u = X.rand_units(rng, pool, 1, 3, emax=3)
-        out.append(["define", name, X.unit_string(u, rng.choice(["*", X.DOT])), X.units_json(u)])
+        ustr = (UW.write_unit(rng, u)[0] if rng.random() < written
+                else X.unit_string(u, rng.choice(["*", X.DOT])))
+        out.append(["define", name, ustr, UW.ordered_json(u, ustr)])
         names.append(name)
     return out
 
@@ -123,14 +137,19 @@ def gen_history(rng):
             continue
         bad = False
         for x in X.subtrees(t):
-            dx = X.dim_tree(x, dh)
-            if dx[0] == "ok" and not X.ok_exps(dx[1]):
-                bad = True
+            # the tree is evaluated with the definitions active AND after clear (names are then
+            # plain symbols): exponents must be printable (denominator <= 6) in both readings
+            for defs_ in (dh, {}):
+                dx = X.dim_tree(x, defs_)
+                if dx[0] == "ok" and not X.ok_exps(dx[1]):
+                    bad = True
         if bad:
             continue
         # other argument types / requests that are rejected (incl. failing re-definitions of an
         # active name in the middle of the formula) / recalculation after such requests
         t, _ = UF.decorate(rng, t, names, mix=(0.25, 0.25, 0.08))
+        if rng.random() < 0.5 and X.unwrap(t)[0] != "leaf":   # (C18 judges calculated quantities)
+            t = UW.rewrite_leaves(rng, t, 0.6)       # operands in other written forms
         if not X.float_ok(t, dh) or not X.float_ok(t, {}):
             continue
         trees.append(t)
@@ -255,8 +274,68 @@ def corpus():
     return base
 
 
-def gen_cases(rng, n):
+def written_history(rng, form):
+    """a history ABOUT one written form: a definition whose expression is spelled in `form` (over
+    base symbols and earlier names), formulas that show what the name means (named +- expanded,
+    named / base, (named * base) - expanded) with operands spelled in `form` as well, then clear
+    and the formulas again; None when the form does not apply to the drawn maps"""
+    defs = gen_defs(rng, written=0.0)[:rng.randint(0, 2)]
+    names = [d[1] for d in defs]
+    name = rng.choice([x for x in NAMES + ["Pa", "J", "W"] if x not in names])
+    for _ in range(20):
+        u = X.rand_units(rng, BASE + names, 1, 3, emax=3)
+        ustr, got = UW.write_unit(rng, u, form)
+        if got == form:
+            break
+    else:
+        return None
+    defs.append(["define", name, ustr, UW.ordered_json(u, ustr)])
+    dh = defs_dict(defs)
+    trees = []
+    for t in name_probes(rng, name, dh) + [X.gen_tree(rng, 2, rng.sample(BASE, 2) + [name], dh)]:
+        # the operands written in the same form where it applies
+        def respell(x):
+            if x[0] == "leaf":
+                v = X.units_from_json(x[1])
+                s_, g = UW.write_unit(rng, v, form)
+                return ["leaf", UW.ordered_json(v, s_), s_] + x[3:]
+            if x[0] == "powc":
+                return ["powc", respell(x[1])] + x[2:]
+            if x[0] == "node":
+                return ["node", x[1], [respell(y) for y in x[2]]]
+            return x
+        if t[0] == "leaf":
+            continue
+        if rng.random() < 0.7:
+            t = respell(t)
+        d = X.dim_tree(t, dh)
+        if d[0] in ("ok", "mismatch") and X.tree_size(t) <= 40 and X.float_ok(t, dh) \
+                and X.float_ok(t, {}) and all(
+                    X.dim_tree(x, dh)[0] != "ok" or X.ok_exps(X.dim_tree(x, dh)[1])
+                    for x in X.subtrees(t)) and X.dim_tree(t, {})[0] in ("ok", "mismatch") and all(
+                    X.dim_tree(x, {})[0] != "ok" or X.ok_exps(X.dim_tree(x, {})[1])
+                    for x in X.subtrees(t)):
+            trees.append(t)
+    if not trees:
+        return None
+    return defs + [["eval", t] for t in trees] + [["clear"]] + [["eval", t] for t in trees]
+
+
+def gen_cases(rng, n, tags=None):
     cases = corpus()
+    # WRITTEN FORMS of definitions and operands (deliberate, every form several times per run)
+    for form in UW.FORMS:
+        made = tries = 0
+        while made < max(4, n // 40) and tries < 120:
+            tries += 1
+            h = written_history(rng, form)
+            if h is None:
+                continue
+            cases.append(h)
+            made += 1
+            if tags is not None:
+                tags["history:definition-written:" + form] += 1
+    n += len(cases) - len(corpus())
     while len(cases) < n:
         h = gen_history(rng)
         if any(st[0] == "eval" for st in h):
@@ -265,8 +344,16 @@ def gen_cases(rng, n):
 
 
 def correspond(ctx):
-    cases = gen_cases(ctx.rng, ctx.n(120, 6000))
+    tags = collections.Counter()
+    cases = gen_cases(ctx.rng, ctx.n(120, 6000), tags)
     r = X.run_cases(ctx, ID, cases)
+    r["distribution"].update(tags)
+    for h in cases:
+        for st in h:
+            if st[0] == "define":
+                for c in UW.written_form(st[2]):
+                    r["distribution"]["definition-string:" + c] = \
+                        r["distribution"].get("definition-string:" + c, 0) + 1
     nontrivial = set()
     for (ci, t, dh, dm, o, si) in r.pop("evals"):
         if dh and (named_power(t, dh) or mixed_sum(t, dh)):
